@@ -48,13 +48,14 @@ class Prop:
              "thorough": {"runs": 3000000, "budget_s": 600, "chunk": 500}}
     rule = ("case = seeded world (1-3 root BlockSeries with 0-4 finite and 0-2 infinite dimensions, absent elements, "
             "pre-cached data, dependency edges incl. self-referential cycles of length 1-3) + seeded sequence of 5-40 index "
-            "operations on roots and kept views; non-trivial = at least 3 value-returning operations, at least one "
+            "operations on roots and kept views, interleaved with evictions through the public pop() and `in` tests (an evicted "
+            "element may be evaluated once more, a cached one never); non-trivial = at least 3 value-returning operations, at least one "
             "masked-array result or view operation, and at least 2 operation categories; distinct = distinct sha256 of the "
             "event log (operations, outcomes, eval calls)")
     probes = ["op_scalar", "op_array", "op_view_create", "op_on_view", "op_on_packed_view", "expect_indexerror_order",
               "expect_indexerror_finite", "expect_runtimeerror_cycle", "masked_result", "precached_read",
-              "dep_nested_eval", "dep_slice_eval", "dep_view_eval", "nested_list_index", "none_valued_read", "kept_view_created", "op_on_kept_view", "npint_index", "cycle_len1", "cycle_len2", "cycle_len3", "view_of_view", "wrong_length"]
-    components_real = ["pymablock.series.BlockSeries (__getitem__, views, _check_finite, _check_number_perturbations)"]
+              "dep_nested_eval", "dep_slice_eval", "dep_view_eval", "nested_list_index", "none_valued_read", "kept_view_created", "op_on_kept_view", "npint_index", "cycle_len1", "cycle_len2", "cycle_len3", "view_of_view", "wrong_length", "pop_cached", "pop_absent", "contains_true", "contains_false"]
+    components_real = ["pymablock.series.BlockSeries (__getitem__, views, pop, __contains__, _check_finite, _check_number_perturbations)"]
     components_stub = ["element eval callbacks (simulator-owned table with dependency edges)", "series names (token_hex counter)"]
     assumptions = ["orders < 5, at most 4 finite and 2 infinite dimensions (5 in total), sizes 1-3",
                    "requests touching an ill-founded element only through a packed view's sibling cells may either raise RuntimeError or return the model value"]
@@ -127,6 +128,10 @@ class Prop:
                 targets.append(vt)
                 dims[vt] = (vshape, ninf)
                 nviews += 1
+        # the public memo interface between the requests: pop (evict one cached element) and `in` (known-absent test)
+        for _ in range(r.choice([0, 0, 1, 2, 4])):
+            s = r.randrange(nroots)
+            ops.insert(r.randint(0, len(ops)), [r.choice(["pop", "pop", "in"]), s, self._rand_index(r, roots[s])])
         for s, fin in kept_views:
             for _ in range(r.randint(1, 4)):
                 orders = [r.randrange(K) if r.random() < 0.7 else {"s": [0, r.randint(1, K), None]} for _ in range(roots[s]["ninf"])]
@@ -346,9 +351,49 @@ class Prop:
             if violation is None:
                 violation = {"class": cls, "detail": detail}
 
+        pops = {}  # node -> number of times it was evicted through pop while cached
         for opi, op in enumerate(case["ops"]):
             if violation:
                 break
+            if op[0] in ("pop", "in"):
+                _, ps, pindex = op
+                pindex = tuple(pindex)
+                if ps >= nroots or not self._valid(roots_spec, ps, pindex) or pindex in pre[ps]:
+                    continue
+                series = real_roots[ps]
+                calls_before = dict(calls)
+                was_cached = pindex in series._data
+                others = {id(x): dict(x._data) for x in all_series}
+                if op[0] == "pop":
+                    default = object()
+                    res = series.pop(pindex, default)
+                    if was_cached:
+                        pops[(ps, pindex)] = pops.get((ps, pindex), 0) + 1
+                        bump("pop_cached")
+                        if res is not values[ps][pindex]:
+                            fail("pop-value", f"op#{opi} pop R{ps}{pindex}: expected the cached element {values[ps][pindex]!r}, got {self._show(res)}")
+                    else:
+                        bump("pop_absent")
+                        if res is not default:
+                            fail("pop-value", f"op#{opi} pop R{ps}{pindex}: nothing cached, expected the default, got {self._show(res)}")
+                    if pindex in series._data:
+                        fail("pop-kept", f"op#{opi} pop R{ps}{pindex}: the element is still cached")
+                    others[id(series)].pop(pindex, None)
+                    events.append(("op", opi, "pop", ps, pindex, was_cached))
+                else:
+                    # only what the property speaks about is judged here: the test evaluates nothing and leaves the memo alone
+                    # (what the answer means for products - "known to be absent" - is C18's matter)
+                    res = pindex in series
+                    bump("contains_true" if res else "contains_false")
+                    if not isinstance(res, (bool, np.bool_)):
+                        fail("contains", f"op#{opi} {pindex} in R{ps}: not a truth value: {res!r}")
+                    events.append(("op", opi, "in", ps, pindex, bool(res)))
+                if calls != calls_before:
+                    fail("memo-interface-evaluates", f"op#{opi} {op[0]} R{ps}{pindex}: evaluated elements")
+                for x in all_series:
+                    if id(x) in others and x._data != others[id(x)]:
+                        fail("memo-interface-side-effect", f"op#{opi} {op[0]} R{ps}{pindex}: changed the memo of {x.name} beyond the popped entry")
+                continue
             if op[0] == "kidx":
                 _, ks, kfin, korders = op
                 key = (ks, tuple(kfin))
@@ -496,8 +541,10 @@ class Prop:
                         events.append(("op", opi, "scalar", int(sel)))
             # ---------------- invariants after every step
             for node, c in calls.items():
-                if c > 1 and node in good and c != calls_before.get(node, 0):
-                    fail("evaluated-twice", f"{desc}: element {node} of a well-founded definition evaluated {c} times")
+                if c > 1 + pops.get(node, 0) and node in good and c != calls_before.get(node, 0):
+                    fail("evaluated-twice", f"{desc}: element {node} of a well-founded definition evaluated {c} times ({pops.get(node, 0)} evictions)")
+                if c != calls_before.get(node, 0) and node[1] in cached_before[id(real_roots[node[0]])]:
+                    fail("cached-evaluated", f"{desc}: element {node} was cached and has been evaluated again")
                 if node[1] in pre[node[0]]:
                     fail("precached-evaluated", f"{desc}: pre-cached element {node} was evaluated")
             sig = 0
